@@ -64,8 +64,8 @@ func init() {
 		"math.Min":             func(fr *frame, a []value) value { return math.Min(a[0].(float64), a[1].(float64)) },
 
 		// --- sync (sequential semantics)
-		"(*sync.Mutex).Lock":      extNop,
-		"(*sync.Mutex).Unlock":    extNop,
+		"(*sync.Mutex).Lock":      extMutexLock,
+		"(*sync.Mutex).Unlock":    extMutexUnlock,
 		"(*sync.Mutex).TryLock":   func(fr *frame, a []value) value { return true },
 		"(*sync.RWMutex).Lock":    extNop,
 		"(*sync.RWMutex).Unlock":  extNop,
@@ -73,7 +73,7 @@ func init() {
 		"(*sync.RWMutex).RUnlock": extNop,
 		"(*sync.WaitGroup).Add":   extNop,
 		"(*sync.WaitGroup).Done":  extNop,
-		"(*sync.WaitGroup).Wait":  extNop,
+		"(*sync.WaitGroup).Wait":  func(fr *frame, a []value) value { fr.i.waitAll(); return nil },
 		"(*sync.Once).Do":         extOnceDo,
 		"(*sync.Pool).Get":        extPoolGet,
 		"(*sync.Pool).Put":        extPoolPut,
@@ -187,6 +187,33 @@ func init() {
 }
 
 func extNop(fr *frame, a []value) value { return nil }
+
+func extMutexLock(fr *frame, a []value) value {
+	i := fr.i
+	if i.sch == nil || len(i.sch.gs) == 1 {
+		return nil
+	}
+	p := a[0].(*value)
+	i.yield()
+	me := i.sch.cur
+	for i.sch.mutexes[p] != 0 && i.sch.mutexes[p] != me.id+1 {
+		me.blocked = func() bool { return i.sch.mutexes[p] != 0 }
+		i.switchFrom(me, false)
+		me.blocked = nil
+	}
+	i.sch.mutexes[p] = me.id + 1
+	return nil
+}
+
+func extMutexUnlock(fr *frame, a []value) value {
+	i := fr.i
+	if i.sch == nil || len(i.sch.gs) == 1 {
+		return nil
+	}
+	delete(i.sch.mutexes, a[0].(*value))
+	i.yield()
+	return nil
+}
 func extNopTuple2(fr *frame, a []value) value {
 	return tuple{0, iface{}}
 }
@@ -312,23 +339,30 @@ func extPoolPut(fr *frame, a []value) value {
 // --- atomics
 
 func extAtomicAdd(fr *frame, a []value) value {
+	fr.i.yield()
 	p := a[0].(*value)
 	nv := fr.i.binop(tokenADD, nil, *p, a[1])
 	fr.i.storeCell(p, nv)
 	return nv
 }
-func extAtomicLoad(fr *frame, a []value) value { return *(a[0].(*value)) }
+func extAtomicLoad(fr *frame, a []value) value {
+	fr.i.yield()
+	return *(a[0].(*value))
+}
 func extAtomicStore(fr *frame, a []value) value {
+	fr.i.yield()
 	fr.i.storeCell(a[0].(*value), a[1])
 	return nil
 }
 func extAtomicSwap(fr *frame, a []value) value {
+	fr.i.yield()
 	p := a[0].(*value)
 	old := *p
 	fr.i.storeCell(p, a[1])
 	return old
 }
 func extAtomicCAS(fr *frame, a []value) value {
+	fr.i.yield()
 	p := a[0].(*value)
 	eq := fr.i.equalsV(nil, *p, a[1])
 	if fr.i.truth(eq) {
